@@ -179,6 +179,14 @@ func registerFlate() {
 	intrinsics["(*compress/flate.Writer).Close"] = func(r *Run, c *frame, fn *ssa.Function, a []Value) Value {
 		return r.flateClose(c, flateWriterOf(a[0]))
 	}
+	intrinsics["(*compress/flate.Writer).Reset"] = func(r *Run, c *frame, fn *ssa.Function, a []Value) Value {
+		// discards the writer's state; destination replaced, dictionary (if any) kept
+		fw := flateWriterOf(a[0])
+		fw.w = a[1].(Iface)
+		fw.data = nil
+		fw.closed = false
+		return nil
+	}
 	intrinsics["(*compress/flate.Writer).Flush"] = func(r *Run, c *frame, fn *ssa.Function, a []Value) Value { return Iface{} }
 	mkReader := func(r *Run, src Value, dict Value) Value {
 		fr := &flateR{r: src.(Iface)}
